@@ -98,6 +98,19 @@ var patternSpec = []uPattern{
 	{"w", nil},
 }
 
+// weightedPatterns: every pattern once, those with a variable before a constant (answered from a secondary index
+// where a store has one) three times.
+var weightedPatterns = func() []int {
+	var w []int
+	for i, p := range patternSpec {
+		w = append(w, i)
+		if len(p.args) == 2 && p.args[0] == nil && p.args[1] != nil {
+			w = append(w, i, i)
+		}
+	}
+	return w
+}()
+
 func constOf(i int64) ast.Constant {
 	if i < 0 {
 		c, err := ast.Name(fmt.Sprintf("/a%d", -i))
@@ -953,7 +966,7 @@ func genStoreCase(t *rapid.T) StoreCase {
 			case w <= 10:
 				o = Op{K: opContains, A: rapid.IntRange(0, universeSize-1).Draw(t, "atom")}
 			case w <= 13:
-				o = Op{K: opQuery, A: rapid.IntRange(0, len(patternSpec)-1).Draw(t, "pattern")}
+				o = Op{K: opQuery, A: rapid.SampledFrom(weightedPatterns).Draw(t, "pattern")}
 				if rapid.Bool().Draw(t, "slowCallback") {
 					o.Slow = rapid.IntRange(1, 3).Draw(t, "callbackYields")
 				}
